@@ -323,6 +323,17 @@ class Gen:
         if kind == "num" and "errors" in self.groups and r.random() < 0.35:
             rhs = self.zero_div_mod()
             kind = "any"        # on the lines where it raises nothing is written
+        elif kind == "num" and "stateful" in self.groups and r.random() < 0.15:
+            # a variable assigned from count(<something>): only the bare count() implies onmatch; a count of a value or of a
+            # condition is taken, and assigned, on every line the match part sees, matching or not
+            anyc = self.cols({"num", "txt"}, strict=True)
+            if anyc and r.random() < 0.6:
+                rhs = L.fn("count", self.href(r.choice(anyc)), quals=[self.fresh("n")])
+            else:
+                b = self.boolean(2)
+                if b["k"] in ("hdr", "var"):
+                    b = L.fn("exists", b)
+                rhs = L.fn("count", b, quals=[self.fresh("n")])
         elif kind == "num":
             rhs = self.num(1)
         elif kind == "txt":
@@ -669,6 +680,14 @@ class Gen:
             if r.random() < 0.5:
                 self.meta.append(L.meta_field("owner", r.choice(["team", "me too"])))
         comps = [self.component() for _ in range(n)]
+        if "errors" in self.groups and "control" in self.groups and not self.no_headers and r.random() < 0.4:
+            # an error pending on a line that a later skip() ends: the skip leaves the line at once, the error is still handed to the
+            # handler with that line's number (every way out of Matcher.matches goes through clear_errors - Eval!Flush)
+            cond = self.boolean(1)
+            if cond["k"] in ("hdr", "var", "term"):
+                cond = L.fn("exists", self.nonterm(cond)) if cond["k"] != "term" else L.fn("yes")
+            comps.insert(r.randint(0, len(comps)), L.err(self.href_any()))
+            comps.insert(r.randint(1, len(comps)), r.choice([L.fn("skip", cond), L.when(cond, L.fn("skip")), L.fn("skip")]))
         ecols = self.cols({"txtE", "numE"})
         if ecols and r.random() < 0.12:
             # a variable assigned from a cell that may be empty, then tested for existence: a variable exists unless it is None
